@@ -62,12 +62,12 @@ FLOORS = {
               "wrong_module_mismatch_pairs": 3500, "right_module_matching_pairs": 12000, "summary_lines_judged": 3000,
               "sparse_output_cases": 500, "network_cases": 1000, "nested_network_cases": 150, "sliced_fromsig_cases": 500,
               "sliced_tosig_cases": 350, "cut_fromsig_cases": 100, "stale_sensitivity_cases": 400, "overhang_cases": 16},
-    "thorough": {"cases_held": 22000, "distinct_nontrivial": 20000, "reports_judged": 300000, "imag_reports_judged": 100000,
-                 "states_compared": 45000, "sensitivities_inspected": 110000, "seeds_observed": 50000,
-                 "use_df_seeds_confirmed": 9000, "wrong_module_mismatch_pairs": 45000, "right_module_matching_pairs": 150000,
-                 "summary_lines_judged": 36000, "sparse_output_cases": 6000, "network_cases": 15000,
-                 "nested_network_cases": 2000, "sliced_fromsig_cases": 7000, "sliced_tosig_cases": 4500,
-                 "cut_fromsig_cases": 1400, "stale_sensitivity_cases": 5000, "overhang_cases": 150},
+    "thorough": {"cases_held": 45000, "distinct_nontrivial": 42000, "reports_judged": 750000, "imag_reports_judged": 250000,
+                 "states_compared": 100000, "sensitivities_inspected": 260000, "seeds_observed": 105000,
+                 "use_df_seeds_confirmed": 20000, "wrong_module_mismatch_pairs": 95000, "right_module_matching_pairs": 400000,
+                 "summary_lines_judged": 80000, "sparse_output_cases": 12000, "network_cases": 30000,
+                 "nested_network_cases": 5000, "sliced_fromsig_cases": 16000, "sliced_tosig_cases": 9000,
+                 "cut_fromsig_cases": 3500, "stale_sensitivity_cases": 10000, "overhang_cases": 300},
 }
 TIMEOUT_CASE = 120
 EXPLANATION = ("clauses -> oracle: (1) every perturbable entry reported once per output and direction: order-free perfect "
@@ -103,12 +103,12 @@ def plan(tier, seed):
                 for kz in (1, 0):
                     cases.append({"fam": "single", "kind": kind, "coef": coef, "knob": knob, "kz": kz, "r": k})
                     k += 1
-    reps = 2 if tier == "quick" else 12
+    reps = 2 if tier == "quick" else 24
     base = list(cases)
     for rep in range(1, reps):
         cases += [dict(c, r=c["r"] + rep * 100000) for c in base]
     # ---- drawn families
-    nnet, nsingle2, nlib, nsp = (2000, 800, 64, 6) if tier == "quick" else (30000, 10000, 600, 12)
+    nnet, nsingle2, nlib, nsp = (2000, 800, 64, 6) if tier == "quick" else (60000, 20000, 1200, 12)
     cases += [{"fam": "network", "r": i} for i in range(nnet)]
     cases += [{"fam": "single2", "r": i} for i in range(nsingle2)]     # two inputs / two outputs / sparse out, all drawn
     cases += [{"fam": "assemble", "r": i, "wrong": i % 2} for i in range(nlib)]
@@ -1029,15 +1029,6 @@ def _slice_kinds(fromlist):
         parts = sl if isinstance(sl, tuple) else (sl,)
         out.append("copy" if any(isinstance(p, (np.ndarray, list)) for p in parts) else "view")
     return out
-
-
-def _fmt_like(P, n, flat):
-    f = P.sig_fmt[n]
-    if f[0] == "0d":
-        return np.array(flat[0])
-    if f[0] == "mat":
-        return np.array(flat).reshape(f[1])
-    return np.array(flat)
 
 
 # ---------------------------------------------------------------------------------------------- library modules
